@@ -187,4 +187,6 @@ func extractC06(repo string, o *Out) {
 		}
 	}
 	o.nat("pendingQueueCapacity", p.ConstU(o, "PendingQueueCapacity"), "sched/timer.go const PendingQueueCapacity")
+	// the heap ARRAY model shared with C05 (`harr` lines): the same facts (c05heap.go)
+	heapArrayFacts(o, p)
 }
